@@ -101,14 +101,19 @@ impl C17 {
         let mut nw = NetWorld::new(ctx.src.u16() as u64);
         let max_clients = 1 + ctx.src.below(3);
         nw.servers.push(mk_server(0, 1, PROTO, max_clients, nw.now, true));
-        let timeout = ctx.src.pick(&[5i32, 3, 15]);
+        // a second server of the same cluster (same key): answers a request with a challenge and is silent afterwards,
+        // so a client that lists it first seals responses for it, times out and falls back to server 0 with the same keys
+        nw.servers.push(mk_server(1, 1, PROTO, 4, nw.now, true));
+        let timeout = ctx.src.pick(&[5i32, 3, 15, 1, 2]);
         ctx.op(&(max_clients, timeout));
         let spawn = |nw: &mut NetWorld, ctx: &mut Ctx| -> usize {
             let i = nw.clients.len();
             let ident = ctx.src.below(5) as u64;
-            let t = nw.mint(&TokenSpec { client_id: 600 + ident, user: i as u64, expire_seconds: 600, timeout, addrs: vec![server_addr(0)], key: key(1), protocol: PROTO });
+            let addrs = if ctx.src.chance(90) { vec![server_addr(1), server_addr(0)] } else { vec![server_addr(0)] };
+            let t = nw.mint(&TokenSpec { client_id: 600 + ident, user: i as u64, expire_seconds: 600, timeout, addrs, key: key(1), protocol: PROTO });
             nw.add_client(t, client_addr(i), i as u64)
         };
+        let mut half_answered: std::collections::BTreeSet<usize> = Default::default();
         for _ in 0..2 {
             spawn(&mut nw, ctx);
         }
@@ -127,8 +132,38 @@ impl C17 {
                     let c = ctx.src.below(n);
                     let lost_up = ctx.src.chance(40);
                     let lost_down = ctx.src.chance(40);
-                    let dt = Duration::from_millis(ctx.src.pick(&[260u64, 60, 130]));
-                    let so = nw.honest_step(c, dt, lost_up, lost_down);
+                    let dt = Duration::from_millis(ctx.src.pick(&[260u64, 60, 130, 1100, 2600]));
+                    // datagrams for the second server: only the first request is answered
+                    let to_second = nw.clients[c].client.server_addr() == server_addr(1);
+                    let so = if to_second {
+                        let mut so = StepOut { sent: None, delivered: false, server: 1, out: SrvOut::None, reply: None, reply_delivered: false };
+                        if let Some(did) = nw.client_update(c, dt) {
+                            so.sent = Some(did);
+                            let d = nw.pool[did].clone();
+                            if d.to == server_addr(1) && d.kind == 0 && !half_answered.contains(&c) {
+                                if let SrvOut::Send { did: r, .. } = nw.server_recv(1, d.src, &d.bytes) {
+                                    half_answered.insert(c);
+                                    let b = nw.pool[r].bytes.clone();
+                                    nw.client_recv(c, &b);
+                                    ctx.label("challenged_by_second_server");
+                                }
+                            } else if d.to == server_addr(0) {
+                                // the update that fell back already produced a datagram for server 0
+                                nw.pool[did].presented += 1;
+                                so.out = nw.server_recv(0, d.src, &d.bytes);
+                                if let SrvOut::Send { did: r, .. } | SrvOut::Connected { did: r, .. } = &so.out {
+                                    let b = nw.pool[*r].bytes.clone();
+                                    nw.client_recv(c, &b);
+                                }
+                                if half_answered.contains(&c) {
+                                    ctx.label("fell_back_after_challenge");
+                                }
+                            }
+                        }
+                        so
+                    } else {
+                        nw.honest_step(c, dt, lost_up, lost_down)
+                    };
                     if matches!(so.out, SrvOut::Connected { .. }) {
                         ever_connected.insert(c);
                     }
@@ -285,7 +320,7 @@ impl Property for C17 {
         PbtCfg { cases: tier.pick(150_000, 5_000_000), max_len: tier.pick(500, 1600), shrink_ms: 120_000 }
     }
     fn required_labels(&self) -> Vec<&'static str> {
-        vec!["handshake_and_session_under_one_key"]
+        vec!["handshake_and_session_under_one_key", "challenged_by_second_server", "fell_back_after_challenge"]
     }
     fn enums(&self, _tier: Tier) -> Vec<(&'static str, u64)> {
         // datagram bits: sample set x (up to 1400*8 bit positions); truncations; token bits; cross-key
